@@ -322,7 +322,7 @@ impl Check for Lowered {
     }
     fn rule(&self) -> String {
         match self.mode {
-            | Mode::Lowering => format!("every accepted program of the universe, of the System-F / F-omega universe and every runnable repository fixture under lib/tests (except fail/ and warn/) ({} programs; Ret-rooted through RootLowerer, executable-rooted through BuiltinRootLowerer): stack-IR lowering, closure conversion, assembly lowering, render_sps_low, render_assembly, emit_amd64 (ELF + Mach-O), emit_llvm (4 triples) each under catch_unwind; independent re-validation in the harness: SPSLow root closed, every block's free variables within its own label, labels unique, stack lets only around coproduct matches, comatch tags unique, product layouts positive with items <= arity and one class per field, every extern in the builtin table with the role's arity; emitted AMD64 text defines no label twice; non-trivial = programs that lowered and contain >= 1 closure package and >= 1 continuation package", self.progs.len()),
+            | Mode::Lowering => format!("every accepted program of the universe, of the System-F / F-omega universe and every runnable repository fixture under lib/tests (except fail/ and warn/) ({} programs; Ret-rooted through RootLowerer, executable-rooted through BuiltinRootLowerer): stack-IR lowering, closure conversion, assembly lowering, render_sps_low, render_assembly, emit_amd64 (ELF + Mach-O), emit_llvm (4 triples) each under catch_unwind; independent re-validation in the harness: SPSLow root closed, every block's free variables within its own label, labels unique, stack lets only around coproduct matches, comatch tags unique, product layouts positive with items <= arity and one class per field, every extern in the builtin table with the role's arity; assembly program: every fall-through, jump and jump-table target, every pushed symbol and variable, every label is defined, no symbol is left undefined, jump-table tags are unique, product layouts positive with elements <= arity and one class per word; emitted AMD64 text defines no label twice; non-trivial = programs that lowered and contain >= 1 closure package and >= 1 continuation package", self.progs.len()),
             | Mode::Preservation => format!("every accepted program of the universe, of the System-F / F-omega universe and every runnable repository fixture under lib/tests that lowers ({} candidate programs) is run on the harness's SPSLow reference machine (layout-aware flat products, blocks closed over their own label, host operations = the repository's implementations) and on zydeco_dynamics::Runtime with the same stdin; output bytes and final result must agree; a stuck SPSLow state (unbound variable in a block, tag not found, layout/arity mismatch, non-package at open) is a violation; non-trivial = programs whose both runs terminate within fuel", self.progs.len()),
         }
     }
@@ -422,6 +422,9 @@ impl Check for Lowered {
             r = r.count("lowered", 1);
             match self.mode {
                 | Mode::Lowering => {
+                    for pr in crate::c18asm::validate_assembly(&backend.assembly).iter().take(2) {
+                        r = r.violation(format!("assembly invariant violated: {}", pr.split(':').last().unwrap_or(pr).trim().chars().take(70).collect::<String>()), format!("{pr}\n{text}"));
+                    }
                     let problems = validate_sps_low(&backend.sps_low);
                     for pr in problems.iter().take(2) {
                         r = r.violation(format!("SPSLow invariant violated: {}", pr.split(':').next().unwrap_or(pr).chars().take(60).collect::<String>()), format!("{pr}\n{text}"));
